@@ -308,3 +308,15 @@ Print Assumptions C04_param_parse.
 Print Assumptions C04_param_time_sweep.
 Print Assumptions C04_total_on_period_lines.
 Print Assumptions C04_name_no_period.
+
+(* ---- pattern selection is the Python's ------------------------------------------------------
+   configure_patterns (the function every theorem above is about) equals, for every line and
+   every section name, the list of regex ASTs that reader.configure_metadata_patterns builds:
+   py_configure_metadata_patterns is re-translated from /repo's source on every run
+   (translators/funcs.py -> Gen/Funcs.v), so an edit of the Python branch logic breaks this. *)
+Require Import Funcs FuncsPinsLib FuncsPinConfigure.
+Theorem C04_selection_current : forall line section_name,
+  configure_patterns line (str_eqb section_name name_Curves) (str_eqb section_name name_Parameter)
+  = pats_re (py_configure_metadata_patterns line section_name).
+Proof. exact configure_patterns_pin. Qed.
+Print Assumptions C04_selection_current.
